@@ -315,15 +315,17 @@ reg(Prop(
     "C17", "read_n under I/O faults",
     quick=[c17_job(4, "fresh"), c17_job(3, "fresh"), c17_job(1, "fresh"), c17_job(0, "fresh"),
            c17_job(4, "nearly_full"), c17_job(3, "nearly_full"), c17_job(2, "full_chunk"),
-           c17_job(3, "fresh", witness=True, quick=True)],
+           c17_job(3, "fresh", witness=True, quick=True), codecx.ReadWrappers("quick")],
     thorough=[c17_job(c, "fresh") for c in range(5)] + [c17_job(c, "nearly_full") for c in (0, 3, 4)]
-    + [c17_job(c, "full_chunk") for c in (2, 4)] + [c17_job(3, "fresh", witness=True, quick=True)],
-    bounds_quick="ByteArena::read_n: count in {0,1,3,4} (concrete per job), every reader script of <= 4 actions, max_attempts 1..4, arena pre-state in {no cache, 3 bytes left in an 8-byte chunk, chunk exactly full}",
-    bounds_thorough="count 0..4, same scripts, all three arena pre-states",
+    + [c17_job(c, "full_chunk") for c in (2, 4)] + [c17_job(3, "fresh", witness=True, quick=True), codecx.ReadWrappers("thorough")],
+    bounds_quick="ByteArena::read_n (Kani): count in {0,1,3,4} (concrete per job), every reader script of <= 4 actions, max_attempts 1..4, arena pre-state in {no cache, 3 bytes left in an 8-byte chunk, chunk exactly full}. Codec wrappers (Engine X, read_n replaced by the contract just described): Encoder::encode_read / Decoder::decode_read called twice, every reader content <= 3 bytes, every first count, plus 300- and 257-byte contents: Ok(n) is the number of bytes delivered, the codec output is that of the delivered prefix, a failed read appends nothing",
+    bounds_thorough="count 0..4, same scripts, all three arena pre-states; wrapper contents <= 5 bytes",
     outside=["scripts longer than 4 actions, counts above 4, production chunk sizes (4 KiB..1 MiB; hook H2 shrinks them to 8 bytes)",
              "count is concrete per job (a symbolic count makes the chunk allocation size symbolic, which exhausted 12 GB)",
-             "error payloads: errors are io::Error::from(ErrorKind) (no heap payload)"],
+             "error payloads: errors are io::Error::from(ErrorKind) (no heap payload)",
+             "the wrappers are checked against read_n's contract, not against the real read_n in one piece (assume/guarantee: the Kani jobs decide the contract)"],
     assumptions=["hook H2: arena chunk size 8 bytes (constant sequence) through --cfg woodpile_verif_arena"],
+    trusted=["for the wrapper job: the MIR interpreter lib/mirx.py, the reference codec lib/codecx.py, OwningIovec as an event log"],
 ))
 
 
